@@ -4,7 +4,8 @@
 (* logical constraint (so that several conversion levels exist), crossed with *)
 (* how ranges reach the solver and which transfers the run performs.          *)
 EXTENDS Integers, Sequences, FiniteSets, TLC, Json
-Kinds == {"range", "le", "ge", "eq"}
+Kinds == {"range", "le", "ge", "eq",
+          "free"}        \* a linear row without finite bounds: nothing is posted for it
 RowSeqs == UNION {[1..n -> Kinds] : n \in 2..4}
 Extras == {"none", "abs", "logic", "abs+logic",
            "fixmaxc"}      \* a variable fixed by its bounds at 3 and the constant 3 as an operand of max(): the converter
